@@ -148,8 +148,10 @@ def audit_theorems(names):
             res[n] = {"ok": not bad, "axioms": ax, "msg": "" if not bad else f"forbidden axioms {bad}"}
         elif re.search(r"'" + re.escape(n) + r"' does not depend on any axioms", flat):
             res[n] = {"ok": True, "axioms": [], "msg": ""}
+        elif ("Unknown constant `" + n + "`") in text or ("unknown constant '" + n + "'") in text:
+            res[n] = {"ok": False, "axioms": [], "msg": "theorem not found in LnnVerif.Props.All"}
         else:
-            res[n] = {"ok": False, "axioms": [], "msg": "theorem missing or file failed: " + text[-600:]}
+            res[n] = {"ok": False, "axioms": [], "msg": "audit file failed: " + text[-400:]}
     return res
 
 
